@@ -501,6 +501,21 @@ fn judge_case(c: &SCase) -> Verdict {
         sim.tick_n(2);
         second_session_chars.push(code_of("x"));
     }
+    if c.scenario == 7 {
+        // the same sequence a second time: leader, the whole sequence again
+        sim.tick_n(t + 20);
+        sim.press(code_of("l"));
+        sim.tick_n(1);
+        sim.release(code_of("l"));
+        sim.tick_n(1);
+        for st in steps.iter() {
+            match st {
+                Step::Down(k) => sim.press(*k),
+                Step::Up(k) => sim.release(*k),
+            }
+            sim.tick_n(1);
+        }
+    }
     sim.tick_n(t + 20);
     let outs = sim.outs[start_out..].to_vec();
     let vk_codes: Vec<u16> = VK_OUT.iter().map(|n| code_of(n)).collect();
@@ -575,11 +590,11 @@ fn judge_case(c: &SCase) -> Verdict {
         twin
     };
     if expect_fire {
-        if fired != vec![which] {
+        if fired != if c.scenario == 7 { vec![which, which] } else { vec![which] } {
             if has_twin() {
                 return Verdict::failed("mismatch:overlap-group-then-more-with-twin:not-fired", format!("{}\nvirtual keys fired: {fired:?}, expected exactly [{which}]", describe()));
             }
-            return Verdict::failed("mismatch:sequence-not-fired-exactly-once", format!("{}\nvirtual keys fired: {fired:?}, expected exactly [{which}]", describe()));
+            return Verdict::failed("mismatch:sequence-not-fired-exactly-once", format!("{}\nvirtual keys fired: {fired:?}, expected exactly [{which}]{}", describe(), if c.scenario == 7 { " twice" } else { "" }));
         }
     } else if !fired.is_empty() {
         if !fired.contains(&which) && has_twin() {
@@ -627,6 +642,9 @@ fn judge_case(c: &SCase) -> Verdict {
                 }
             }
         }
+    }
+    if c.scenario == 7 {
+        v.classes.push("typed-twice");
     }
     v.classes.push(match c.scenario % 7 {
         6 => "leader-again-mid-sequence",
@@ -680,7 +698,7 @@ impl TypedProp for C12 {
     fn info(&self) -> PropInfo {
         PropInfo {
             level: "exploration",
-            rule: "tables: 1-5 defseq sequences of 1-4 items over keys a-d: plain keys, chorded keys with every modifier prefix (S- C- A- M- RA- RS- RC- RM-), chorded groups, O-(..) groups of 2-4 keys of a-d, one group in five of 5-6 keys of a-f (6 is the maximum the parser accepts); input modes visible-backspaced / hidden-suppressed / hidden-delay-type, sequence-always-on, timeouts {10,50}. Oracle (i): the harness encodes every sequence and every O- permutation itself (documented bit layout) and decides prefix-freedom: the parser must accept iff prefix-free, and the compiled table must answer HasValue(the right virtual key) for every encoding and InTrie for every proper prefix. Oracle (ii): for an accepted table one sequence is typed physically (every O- order, left- or right-hand modifier): fully => its virtual key exactly once, no other, sequence mode left, nothing down; hidden modes press no typed key, visible-backspaced sends one backspace per typed character; a proper prefix followed by a key in no sequence, then the whole sequence again without the leader => no virtual key; the full sequence, then the leader again with a proper prefix and a key in no sequence => the virtual key exactly once, and in hidden-delay-type the failed session types exactly its own keys; the leader pressed again after a proper prefix (no key held) => ignored in visible-backspaced and hidden-delay-type (the rest completes the sequence), a restart in hidden-suppressed (the whole sequence typed again completes it): the virtual key exactly once; a pause of T-1 ms between two key presses still completes, T and T+1 do not. Non-trivial: >= 2 sequences share a first key, or an O- group occurs. Distinct: hash of the case.",
+            rule: "tables: 1-5 defseq sequences of 1-4 items over keys a-d: plain keys, chorded keys with every modifier prefix (S- C- A- M- RA- RS- RC- RM-), chorded groups, O-(..) groups of 2-4 keys of a-d, one group in five of 5-6 keys of a-f (6 is the maximum the parser accepts); input modes visible-backspaced / hidden-suppressed / hidden-delay-type, sequence-always-on, timeouts {10,50}. Oracle (i): the harness encodes every sequence and every O- permutation itself (documented bit layout) and decides prefix-freedom: the parser must accept iff prefix-free, and the compiled table must answer HasValue(the right virtual key) for every encoding and InTrie for every proper prefix. Oracle (ii): for an accepted table one sequence is typed physically (every O- order, left- or right-hand modifier): fully => its virtual key exactly once, no other, sequence mode left, nothing down; hidden modes press no typed key, visible-backspaced sends one backspace per typed character; a proper prefix followed by a key in no sequence, then the whole sequence again without the leader => no virtual key; the full sequence, then the leader again with a proper prefix and a key in no sequence => the virtual key exactly once, and in hidden-delay-type the failed session types exactly its own keys; the leader pressed again after a proper prefix (no key held) => ignored in visible-backspaced and hidden-delay-type (the rest completes the sequence), a restart in hidden-suppressed (the whole sequence typed again completes it): the virtual key exactly once; a pause of T-1 ms between two key presses still completes, T and T+1 do not; the whole sequence typed a second time after a new leader fires its virtual key a second time. Non-trivial: >= 2 sequences share a first key, or an O- group occurs. Distinct: hash of the case.",
             assumptions: vec!["pinned timeout convention: a key press fewer than T ms after the previous one continues the sequence".into()],
             extra: BTreeMap::new(),
         }
@@ -693,7 +711,7 @@ impl TypedProp for C12 {
             },
             exhaustive: false,
             distinct_by_construction: false,
-            required_classes: vec!["overlap-group-of-5-or-6-keys", 
+            required_classes: vec!["overlap-group-of-5-or-6-keys", "typed-twice", 
                 "accepted", "rejected-conflict", "typed-full", "typed-prefix-then-other", "pause-T-1", "pause-T", "pause-T+1", "two-sessions", "leader-again-mid-sequence", "overlap-group",
                 "right-hand-modifier", "right-hand-prefix-in-table",
             ],
@@ -712,7 +730,7 @@ impl TypedProp for C12 {
             any::<u16>(),
             any::<u16>(),
             any::<bool>(),
-            0u8..7,
+            0u8..8,
             any::<u16>(),
         )
             .prop_map(|(mut seqs, mode, timeout, always_on, which, perm, right_hand, scenario, cut)| {
